@@ -33,6 +33,8 @@ func main() {
 		os.Exit(cmdCheck(os.Args[2], os.Args[3], os.Args[4:]))
 	case "func":
 		os.Exit(cmdFunc(os.Args[2:]))
+	case "sweep":
+		os.Exit(cmdSweep(os.Args[2:]))
 	case "replay":
 		if len(os.Args) < 3 {
 			usage()
@@ -603,4 +605,76 @@ func loadMutantResult(verif, prop string) interface{} {
 	var v interface{}
 	json.Unmarshal(data, &v)
 	return v
+}
+
+// cmdSweep: zero-annotation safety sweep.  Every function of the given
+// packages is translated without a contract; only the automatic obligations
+// (index/slice bounds, division by zero, explicit panic, make sizes) are
+// generated.  Undischarged ones are candidates (most need a precondition),
+// printed for triage; nothing here is a verdict.
+func cmdSweep(dirs []string) int {
+	e := newEngineFromEnv()
+	e.Timeout = 5
+	if err := e.LoadContracts(); err != nil {
+		fmt.Fprintln(os.Stderr, err)
+		return 2
+	}
+	if err := e.LoadPackages(dirs); err != nil {
+		fmt.Fprintln(os.Stderr, err)
+		return 2
+	}
+	scratch, _ := os.MkdirTemp("", "govc-sweep")
+	defer os.RemoveAll(scratch)
+	e.ScratchDir = scratch
+	var obs []*Obligation
+	nfn := 0
+	for _, d := range dirs {
+		path := repoModule + "/" + strings.TrimPrefix(d, "./")
+		sp := e.Prog.ImportedPackage(path)
+		if sp == nil {
+			continue
+		}
+		dummy := &FuncContract{PkgPath: path, Name: "\x00none"}
+		e.FindFunction(dummy)
+		var names []string
+		for k := range e.fnByName {
+			if strings.HasPrefix(k, path+".") {
+				names = append(names, k)
+			}
+		}
+		sort.Strings(names)
+		for _, k := range names {
+			fn := e.fnByName[k]
+			if len(fn.Blocks) == 0 || fn.Synthetic != "" || strings.HasPrefix(fn.Name(), "init") {
+				continue
+			}
+			if pos := fn.Pos(); pos.IsValid() && strings.HasSuffix(e.Fset.Position(pos).Filename, "verif_contracts.go") {
+				continue
+			}
+			fc := e.NewFnCtx(fn, nil)
+			func() {
+				defer func() {
+					if r := recover(); r != nil {
+						fmt.Printf("sweep: %s: translation aborted: %v\n", fc.name, r)
+					}
+				}()
+				if err := fc.Translate(); err != nil {
+					fmt.Printf("sweep: %s: %v\n", fc.name, err)
+					return
+				}
+				nfn++
+				obs = append(obs, fc.obligations...)
+			}()
+		}
+	}
+	e.DischargeAll(obs, workers())
+	bad := 0
+	for _, ob := range obs {
+		if ob.Status != "discharged" {
+			bad++
+			fmt.Printf("%-10s %-40s %s  [%s]\n", ob.Status, ob.Name, ob.Desc, ob.Pos)
+		}
+	}
+	fmt.Printf("sweep: %d functions, %d automatic safety obligations, %d not discharged without any contract\n", nfn, len(obs), bad)
+	return 0
 }
